@@ -76,7 +76,7 @@ type Entry struct {
 	RealDesired int64
 }
 
-func (e Entry) Write() bool { return IsWrite(e.Op) }
+func (e Entry) Write() bool   { return IsWrite(e.Op) }
 func (e Entry) OKWrite() bool { return IsWrite(e.Op) && e.Err == "" }
 
 func (e Entry) String() string {
@@ -505,6 +505,47 @@ func (w *World) AddPendingInstance(a *ASG) string {
 	a.Desired++
 	w.EC2[id] = &Inst{ID: id, State: "pending", Launch: time.Now(), ASG: a.Name}
 	return id
+}
+
+// ReplaceInstance models the ASG replacing the instance behind a node (unhealthy, reclaimed spot
+// capacity, AZ rebalance): the old instance is terminated, a new one takes its place in the ASG's
+// instance list (desired capacity unchanged) and registers a fresh Node created now, untainted,
+// without pods. With keepName the new Node object carries the old node's name.
+func (w *World) ReplaceInstance(nodeName string, keepName bool) *v1.Node {
+	for i, n := range w.Nodes {
+		if n.Name != nodeName {
+			continue
+		}
+		oldID := InstanceIDOf(n.Spec.ProviderID)
+		for _, a := range w.ASGs {
+			for j, in := range a.Instances {
+				if in.ID != oldID {
+					continue
+				}
+				if inst := w.EC2[oldID]; inst != nil {
+					inst.State = "terminated"
+				}
+				id := w.newInstanceID(a.Name)
+				a.Instances[j] = AInst{ID: id, AZ: azOf(id)}
+				now := time.Now()
+				w.EC2[id] = &Inst{ID: id, State: "running", Launch: now.Add(-30 * time.Second), ASG: a.Name, Registered: true}
+				nn := w.makeNode(a, id, now)
+				if keepName {
+					nn.Name = nodeName
+				}
+				w.Nodes[i] = nn
+				pk := w.Pods[:0:0]
+				for _, p := range w.Pods {
+					if p.Spec.NodeName != nodeName {
+						pk = append(pk, p)
+					}
+				}
+				w.Pods = pk
+				return nn
+			}
+		}
+	}
+	return nil
 }
 
 // SeqInst is the instance-id counter (part of the canonical state: it names future instances).
